@@ -66,6 +66,10 @@ def run(check, pool, Task):
 
     from . import glue
     glue.run(check, pool, Task, ('multipoint',))
+    # index state 'built on the parent, then sliced/derived': a derived array with different rows must start without an index (then the obligations above apply)
+    from . import wrappers as W
+    W.run_arrays(check, pool, Task, 'C04', ('sindex', 'isna'), kinds=['line', 'polygon'] if check.tier != 'thorough' else ['multipoint', 'line', 'multiline', 'polygon', 'multipolygon'],
+                 derivs=['slice[1:]', 'reverse[::-1]', 'step[::2]', 'take[2,0,-1]', 'mask', 'copy', 'concat[2:]+[:2]', 'slice[-2:]', 'head[:2]'], label='index-state')
 
 
 def replay(path):
